@@ -12,20 +12,21 @@ DEFAULT_MACROS = [("log", "info"), ("log", "warn"), ("log", "error")]
 
 # ----------------------------------------------------------------------------- feature model
 
+_KV_SHAPES = ["ident", "field", "uint", "float", "bool", "str", "str_semi", "str_comma", "str_escq", "str_eq",
+              "mod_q", "mod_debug", "mod_pct", "mod_display", "mod_err", "mod_sval", "mod_serde",
+              "short", "short_q", "short_pct"]
 FEATURES = {
     "path": ["bare", "qual"],
     "macro": [0, 1, 2, 3, 4],          # index into the configured macro set (modulo its length)
     "target": ["none", "plain", "spacey", "colons", "punct", "slashes", "blockopen", "escq"],
     "nkv": [0, 1, 2, 3],
-    "kv0": ["ident", "field", "uint", "float", "bool", "str", "str_semi", "str_comma", "str_escq",
-            "mod_q", "mod_debug", "mod_pct", "mod_display", "mod_err", "mod_sval", "mod_serde",
-            "short", "short_q", "short_pct"],
-    "kv1": ["ident", "uint", "str", "str_semi", "str_comma", "str_escq", "mod_q", "mod_pct", "short", "short_q"],
-    "kv2": ["field", "bool", "str", "float", "mod_debug", "mod_display", "mod_err", "short_pct"],
+    "kv0": list(_KV_SHAPES),
+    "kv1": list(_KV_SHAPES),
+    "kv2": list(_KV_SHAPES),
     "msg": ["plain", "placeholder", "escquote", "unicode", "reflike_inside", "commentish", "parens", "empty",
             "braces", "bang", "macrotext", "lead_digit", "lead_bracket", "lead_space", "lead_backslash"],
     "trail": ["none", "pos1", "pos2", "named", "str"],
-    "lay": ["tight", "space", "nl", "nl0", "blockc", "linec", "tabs"],
+    "lay": ["tight", "space", "nl", "nl0", "blockc", "linec", "tabs", "exotic"],
     "pre": ["bol", "indent", "brace", "semi", "arrow", "closure", "call", "stmt", "strlit", "charlit", "eq",
             "uni_indent", "kw_return", "kw_break", "ident_comment"],
     "post": ["semi", "paren", "comma", "brace", "eof"],
@@ -51,6 +52,7 @@ def kv_text(shape, key, rnd):
         "bool": "%s = %s" % (key, rnd.choice(["true", "false"])),
         "str": '%s = "%s"' % (key, rnd.choice(["v", "some text", "x=y", "a b c", "ref = 5", "[ref: 7] "])),
         "str_semi": '%s = "%s"' % (key, rnd.choice(["a;b", ";", "x; y; z", 'ref = 5; '])),
+        "str_eq": '%s = "%s"' % (key, rnd.choice(["x=y", "a = b", "==", "k=\\\"v\\\""])),
         "str_comma": '%s = "%s"' % (key, rnd.choice(["a,b", ",", "x, y", "ref = 5, "])),
         "str_escq": '%s = "%s"' % (key, rnd.choice(['q\\"q', '\\"', 'say \\"hi\\"'])),
         "mod_q": "%s:? = %s" % (key, rnd.choice(IDENTS)),
@@ -98,6 +100,8 @@ def lay(cls, rnd, eol, indent="    "):
         "blockc": " /* c, c; c */ ",
         "linec": " // c, c; (c" + eol + indent,
         "tabs": "\t \t",
+        # the other characters Rust's lexer (and the grammar's WHITESPACE rule) treat as whitespace
+        "exotic": "\u0085\u2028 \u200e\x0b\x0c\u2029\u200f",
     }[cls]
 
 
@@ -175,7 +179,7 @@ def build_stmt(feat, marker, rnd, macros=None, eol="\n", ref_id=None, kv_ref=Non
         parts.append(("sep", ","))
         parts.append(("lay", L() or " "))
         parts.append(("trail", t))
-    parts.append(("lay", L() if feat["lay"] in ("space", "nl", "nl0", "tabs") else ""))
+    parts.append(("lay", L() if feat["lay"] in ("space", "nl", "nl0", "tabs", "exotic") else ""))
     parts.append(("close", ")"))
 
     st = Stmt()
@@ -252,7 +256,10 @@ DECOY_CLASSES = ["line_comment", "block_comment", "doc_comment", "inner_doc", "b
                  # near-misses of the configured (module, name) pairs
                  "module_name_concat", "module_underscore_name", "name_module_swapped", "module_twice", "case_variant",
                  "name_trailing_underscore", "name_leading_underscore", "module_suffix_only", "name_of_one_module_of_other",
-                 "deeper_path"]
+                 "deeper_path",
+                 # comment and string corner cases
+                 "block_stars", "block_star_space_slash", "block_nested_look", "line_trailing_backslash", "doc_block",
+                 "no_literal_kv", "after_string_ending_in_backslash", "line_comment_after_string", "block_with_quote"]
 
 
 def decoy_text(cls, marker, rnd, macros, eol):
@@ -286,6 +293,15 @@ def decoy_text(cls, marker, rnd, macros, eol):
         "name_of_one_module_of_other": ('%s::%s!("%s unconfigured pairing");' % (cross[0], cross[1], marker)) if cross
                                        else ('zz%s::%s!("%s unconfigured pairing");' % (mod, name, marker)),
         "deeper_path": 'crate::util::%s::%s!("%s deeper path");' % (mod, name, marker),
+        "block_stars": '/** %s!("%s in starred block") **/' % (name, marker),
+        "block_star_space_slash": '/* a * / %s!("%s after star space slash") */' % (name, marker),
+        "block_nested_look": '/* /* %s!("%s nested-looking block") */' % (name, marker),
+        "line_trailing_backslash": '// %s!("%s line comment ending in a backslash") \\' % (name, marker),
+        "doc_block": '/*! %s::%s!("%s inner doc block") */' % (mod, name, marker),
+        "no_literal_kv": '%s!(a = 1, b:? = x; MSG_%s);' % (name, marker),
+        "after_string_ending_in_backslash": 'let p = "dir\\\\"; let q = "%s!(\\"%s quoted after backslash string\\")";' % (name, marker),
+        "line_comment_after_string": 'let s = "text"; // %s!("%s comment after a string")' % (name, marker),
+        "block_with_quote": '/* it\'s "quoted %s!("%s in block with quotes") */' % (name, marker),
     }
     for k in list(extra):
         # a near-miss that happens to coincide with a configured macro is not a decoy: neutralise it
